@@ -2,6 +2,7 @@ package props
 
 import (
 	"go/token"
+	"sort"
 	"strings"
 
 	"godcheck/core"
@@ -700,4 +701,108 @@ func c19(r *core.Run) {
 			o.Fail(logxPkg, "no worker goroutine receiving from l.channel found")
 		}
 	})
+
+	r.Check("D2/K1/reopen-keeps-size", "a RotateLogger that re-opens an existing log file in append mode starts counting from that file's size (else the size rule lets the file grow past the limit by a whole file)", func(o *core.O) {
+		n := 0
+		for _, f := range p.PkgFuncs("lib/logx") {
+			if !c19IsRecvOf(f, "RotateLogger") {
+				continue
+			}
+			for _, op := range core.Calls(f, core.PlainCallTo("os.OpenFile")) {
+				// append mode: flag constant with O_APPEND (0x400)
+				fl, ok := core.ConstInt(core.Args(op)[1])
+				if !ok || fl&0x400 == 0 {
+					continue
+				}
+				n++
+				r.Fn(core.FuncName(f))
+				okEdges, _ := core.EdgesOf(f, core.ErrNil(1, core.Is(op)))
+				isSize := func(in ssa.Instruction) bool {
+					st, ok := in.(*ssa.Store)
+					if !ok || core.FieldAddrName(st.Addr) != "RotateLogger.currentSize" {
+						return false
+					}
+					return core.DependsOn(st.Val, func(v ssa.Value) bool {
+						c, ok := v.(*ssa.Call)
+						return ok && strings.HasSuffix(core.Short(core.CalleeName(c)), "FileInfo).Size")
+					})
+				}
+				if len(okEdges) == 0 {
+					o.Fail(p.InstrPos(op), "%s: the error of the append-mode open is not tested", core.FuncName(f))
+					continue
+				}
+				var from []core.At
+				for _, e := range okEdges {
+					from = append(from, core.Head(e.To))
+				}
+				if w, ok := core.Reach(core.Q{From: from, Target: core.IsReturn, Blocked: isSize}); ok {
+					o.Fail(p.InstrPos(w), "%s re-opens an existing file for append without setting currentSize from its size: the size rule counts from zero", core.FuncName(f))
+				}
+			}
+		}
+		o.Site(n)
+	})
+
+	r.Check("D4/K9/time-base-agreement", "the time stamps written into backup names and the retention boundaries compared with them use the same time base (time.Now() without, or with the same, zone conversion) per layout", func(o *core.O) {
+		// per Format(layout) call of lib/logx rotate rules: the chain of time methods between time.Now() and Format
+		chains := map[string]map[string][]string{} // layout -> zone chain -> sites
+		n := 0
+		for _, f := range p.PkgFuncs("lib/logx") {
+			for _, c := range core.Calls(f, core.CallMethod("time.Time", "Format")) {
+				layout, ok := core.ConstString(core.Args(c)[1])
+				if !ok {
+					continue
+				}
+				// walk the receiver back to time.Now()
+				v := core.Forward(core.Args(c)[0])
+				var zone []string
+				rooted := false
+				for i := 0; i < 8; i++ {
+					cc, ok := v.(*ssa.Call)
+					if !ok {
+						break
+					}
+					name := core.Short(core.CalleeName(cc))
+					if name == "time.Now" {
+						rooted = true
+						break
+					}
+					switch name {
+					case "(time.Time).UTC", "(time.Time).Local", "(time.Time).In":
+						zone = append(zone, strings.TrimPrefix(name, "(time.Time)."))
+					case "(time.Time).Add", "(time.Time).AddDate", "(time.Time).Truncate", "(time.Time).Round":
+					default:
+						i = 99
+						continue
+					}
+					v = core.Forward(core.Args(cc)[0])
+				}
+				if !rooted {
+					continue
+				}
+				n++
+				r.Fn(core.FuncName(f))
+				key := strings.Join(zone, ">")
+				if chains[layout] == nil {
+					chains[layout] = map[string][]string{}
+				}
+				chains[layout][key] = append(chains[layout][key], core.FuncName(f)+" ("+p.InstrPos(c)+")")
+			}
+		}
+		o.Site(n)
+		for layout, byZone := range chains {
+			if len(byZone) > 1 {
+				var parts []string
+				for z, sites := range byZone {
+					if z == "" {
+						z = "local"
+					}
+					parts = append(parts, z+": "+strings.Join(sites, ", "))
+				}
+				sort.Strings(parts)
+				o.Fail("lib/logx/rotatelogger.go", "time stamps of layout %q are produced in different time bases (%s): names written in one zone are compared with a boundary in another, so young backups can be deleted or old ones kept", layout, strings.Join(parts, " | "))
+			}
+		}
+	})
+
 }
